@@ -7,12 +7,13 @@ using namespace gen;
 
 static void run_case(hz::Ctx &ctx, const LineCase &c, const std::function<bool(const LineCase &)> &nontrivial,
                      const std::function<void(const LineCase &, const Verdict &, hz::Ctx &)> &extra = nullptr) {
+  if (!ctx.take()) return;
   std::string id = serialize(c);
-  if (!ctx.begin_h(id, text(c.it))) return;
+  if (!ctx.begin(id, text(c.it))) return;
   Verdict v = check_encoding(c);
   ctx.cls("cls:" + c.it.cls); ctx.cls("form:" + c.it.form);
   if (nontrivial(c)) ctx.nontrivial(id);
-  ctx.sample(text(c.it) + "  [" + combo_name(c.combo) + "] -> " + (v.res.rc == 0 ? x86::hex(v.res.bytes.data(), v.res.bytes.size()) : std::string("EXIT_FAILURE")));
+  if (ctx.want_sample()) ctx.put_sample(text(c.it) + "  [" + combo_name(c.combo) + "] -> " + (v.res.rc == 0 ? x86::hex(v.res.bytes.data(), v.res.bytes.size()) : std::string("EXIT_FAILURE")));
   if (!v.ok) { ctx.fail(make_failure(c, v.symptom, v.detail)); return; }
   if (extra) extra(c, v, ctx);
 }
@@ -198,13 +199,14 @@ void prop_c05(hz::Ctx &ctx) {
       for (int64_t d : rels) for (int hex = 0; hex < 2; hex++) {
         LineCase c; c.it = base_intent(r); c.it.brkw = kw; c.it.ops.push_back(wrel(d, hex == 1));
         c.combo = (int)((hz::fnv(r.mn) + (uint64_t)d + ctx.seed) % 12);
+        if (!ctx.take()) continue;
         std::string id = serialize(c);
-        if (!ctx.begin_h(id, text(c.it))) continue;
+        if (!ctx.begin(id, text(c.it))) continue;
         bool fits8 = d >= -128 && d <= 127;
         ctx.cls(std::string("kw:") + (kw == 0 ? "none" : kw == 1 ? "short" : "long")); ctx.cls(fits8 ? "d:fits8" : "d:needs32"); if (d < 0) ctx.cls("d:negative");
         if (d < 0 || !fits8 || kw) ctx.nontrivial(id);
         RelVerdict rv = check_rel(c);
-        ctx.sample(text(c.it) + " -> " + (rv.res.rc == 0 ? x86::hex(rv.res.bytes.data(), rv.res.bytes.size()) : std::string("EXIT_FAILURE")));
+        if (ctx.want_sample()) ctx.put_sample(text(c.it) + " -> " + (rv.res.rc == 0 ? x86::hex(rv.res.bytes.data(), rv.res.bytes.size()) : std::string("EXIT_FAILURE")));
         if (!rv.ok) ctx.fail(make_failure(c, rv.symptom, rv.detail));
       }
     }
